@@ -7,6 +7,9 @@ import (
 	"context"
 	"fmt"
 	"math"
+	"runtime"
+	"strconv"
+	"strings"
 	"testing"
 	"time"
 
@@ -43,6 +46,19 @@ type stubCS struct {
 	ready      bool
 	clientFail bool
 	client     gatewayclientset.Interface
+	owner      uint64 // goroutine of the case: only it sees the scripted readiness
+}
+
+// goid returns the id of the calling goroutine (parsed from the stack header; harness use only).
+func goid() uint64 {
+	var buf [64]byte
+	n := runtime.Stack(buf[:], false)
+	f := strings.Fields(string(buf[:n]))
+	if len(f) < 2 {
+		return 0
+	}
+	id, _ := strconv.ParseUint(f[1], 10, 64)
+	return id
 }
 
 func (s *stubCS) GetAllClients() []gatewayclientset.Interface { return nil }
@@ -53,7 +69,12 @@ func (s *stubCS) ClientFor(cluster string) (gatewayclientset.Interface, error) {
 	return s.client, nil
 }
 func (s *stubCS) ShardIDFor(cluster string) (int, error) { return 0, nil }
-func (s *stubCS) IsReady(cluster string) bool            { return s.ready }
+
+// IsReady: the limiter's own background loop (waitForReady, then a reconcile every 2 s) never sees the server as ready,
+// so that every reconcile round of a case is one the history scheduled (VerifReconcileOnce); otherwise a background
+// round could run concurrently with a scheduled one - two concurrent callers of remoteWrapper.Sync do not exist in
+// the gateway - and the case would depend on timing.
+func (s *stubCS) IsReady(cluster string) bool { return s.ready && goid() == s.owner }
 func (s *stubCS) ClientID() string                       { return "gw-1" }
 
 type reply struct {
@@ -69,7 +90,7 @@ type server struct {
 }
 
 func newServer(tb bool) *server {
-	s := &server{cs: &stubCS{}}
+	s := &server{cs: &stubCS{owner: goid()}}
 	fc := gatewayfake.NewSimpleClientset()
 	fc.PrependReactor("update", "ratelimitconditions", func(action clienttesting.Action) (bool, k8sruntime.Object, error) {
 		ua, ok := action.(clienttesting.UpdateAction)
@@ -453,7 +474,7 @@ func TestPropAllocateTokenBucket(t *testing.T) {
 
 // TestPropCountMaxInflight: global-count, max-in-flight: the wrapper under arbitrary acquire results.
 func TestPropCountMaxInflight(t *testing.T) {
-	sub := stats.NewSub("count-max-in-flight", "rapid state machine on the real UpstreamLimiter in remote mode (global-count, max-in-flight, L <= G <= 10); the answers of the limiter server are delivered synchronously to the wrapper's SetLimit (hook-built AcquireResult): accept/limit with limit in {0,1,-1,-5,MinInt32,MaxInt32,G..G+3,1..G}, error strings, RequestIDTooOld, stale and reordered request times; ops readiness up/down, acquire, release, drain+probe; oracle: admitted-and-unreleased <= G at every admission (G+L under the listed open finding); after an error answer the probe admits between L and G (local limit, not none); not ready => exactly L; non-trivial = a hostile limit, an error answer or a stale request time was delivered; distinct by FNV-64 of the op trace")
+	sub := stats.NewSub("count-max-in-flight", "rapid state machine on the real UpstreamLimiter in remote mode (global-count, max-in-flight, L <= G <= 10); the answers of the limiter server are delivered synchronously to the wrapper's SetLimit (hook-built AcquireResult): accept/limit with limit in {0,1,-1,-5,MinInt32,MaxInt32,G..G+3,1..G}, error strings, RequestIDTooOld, stale and reordered request times; ops readiness up/down, schema update followed by one reconcile round (new local/global limits, also while the server is failing; the new global limit is demanded from the next applied answer on), acquire, release, drain+probe; oracle: admitted-and-unreleased <= G at every admission (G+L under the listed open finding); after an error answer the probe admits between L and G (local limit, not none); not ready => exactly L; non-trivial = a hostile limit, an error answer or a stale request time was delivered; distinct by FNV-64 of the op trace")
 	known := findings.Open(overlapFinding)
 	stats.Check(t, stats.N(5000, 30000), func(t *rapid.T) {
 		l := int32(rapid.IntRange(1, 5).Draw(t, "L"))
@@ -476,6 +497,10 @@ func TestPropCountMaxInflight(t *testing.T) {
 		nt := false
 		reqTime := int64(1000)
 		errorMode := false
+		lastApplied := int64(0) // request time of the last answer the wrapper did not skip
+		pendingG := int32(0)    // global limit of a schema update that no applied answer has followed yet
+		lLow := l               // smallest local limit configured since the last applied answer
+		gMax := g               // largest global limit ever configured in this history
 		sub.Eval()
 		count := func() (loc, rem int) {
 			for _, h := range handles {
@@ -499,12 +524,18 @@ func TestPropCountMaxInflight(t *testing.T) {
 				handles = append(handles, handle{fc, r})
 				loc, rem := count()
 				bound := int(g)
+				if errorMode {
+					// while the server is failing the wrapper admits max(recent in-flight peak, local limit); the peak is
+					// measured over a wall-clock window and may stem from a larger global limit configured earlier in the
+					// history (reconfigurations are outside this property's quantifier): the largest limit ever configured bounds it
+					bound = int(gMax)
+				}
 				if loc > 0 && rem > 0 && known {
 					bound = int(g + l)
 					sub.ExcludedByKnownFinding()
 				}
 				if loc+rem > bound {
-					t.Fatalf("%d requests in flight (%d local, %d remote) exceed the global limit %d\ntrace: %s", loc+rem, loc, rem, g, trace)
+					t.Fatalf("%d requests in flight (%d local, %d remote) exceed the global limit %d\ntrace: %s", loc+rem, loc, rem, bound, trace)
 				}
 				if !r && loc > int(l) {
 					t.Fatalf("%d requests admitted by the local limiter exceed the local limit %d\ntrace: %s", loc, l, trace)
@@ -546,8 +577,24 @@ func TestPropCountMaxInflight(t *testing.T) {
 				}
 				cache.FlowControl().SetLimit(remote.VerifNewAcquireResult(&proxyv1alpha1.RateLimitAcquireRequest{FlowControl: "s"}, res, rt))
 				trace += fmt.Sprintf("answer(accept=%v,limit=%d,err=%q,t=%d);", res.Accept, res.Limit, res.Error, rt)
+				if res.Error == "" && (rt == 0 || rt > lastApplied) {
+					lastApplied = rt
+					lLow = l
+					errorMode = false // an applied answer ends the error mode (stale ones are skipped by the wrapper)
+					if pendingG > 0 {
+						// this answer is clamped to the new global limit; requests admitted under the previous
+						// configuration are drained so that the ledger is judged against one limit
+						for _, h := range handles {
+							h.fc.Release()
+						}
+						handles = nil
+						g, pendingG = pendingG, 0
+					}
+				}
 				if res.Error != "" && res.Error != "RequestIDTooOld" {
-					errorMode = true
+					if rt == 0 || rt > lastApplied {
+						errorMode = true
+					}
 					nt = true
 					sub.Class("error-answer")
 				} else if res.Error == "" {
@@ -555,12 +602,40 @@ func TestPropCountMaxInflight(t *testing.T) {
 						nt = true
 						sub.Class("hostile-limit")
 					}
-					if res.Accept && rt > 0 {
-						// an accepted, current answer ends the error mode (stale ones are skipped by the wrapper; 0 means "no time")
-					}
 				}
 			},
 			"acquire": func(t *rapid.T) { acquire(t) },
+			"schemaUpdate": func(t *rapid.T) {
+				// the configured limits change and one reconcile round hands them to the remote wrapper (also while
+				// the server is failing); the wrapper re-clamps at the next applied answer, so the new global limit is
+				// demanded from then on; requests admitted before the update are drained first
+				for _, h := range handles {
+					h.fc.Release()
+				}
+				handles = nil
+				nl := int32(rapid.IntRange(1, 5).Draw(t, "newL"))
+				ng := nl + int32(rapid.IntRange(0, 5).Draw(t, "newGextra"))
+				ul.Sync(schemaMIF(proxyv1alpha1.GlobalCountLimit, nl, ng))
+				remote.VerifReconcileOnce(flowcontrols.VerifReconcile(ul))
+				trace += fmt.Sprintf("schema(L=%d,G=%d);", nl, ng)
+				l = nl
+				if nl < lLow {
+					lLow = nl
+				}
+				pendingG = ng
+				if ng > g {
+					g = ng // until the next applied answer either bound may be in force
+				}
+				if ng > gMax {
+					gMax = ng
+				}
+				nt = true
+				if errorMode {
+					sub.Class("schema-update-while-the-server-is-failing")
+				} else {
+					sub.Class("schema-update")
+				}
+			},
 			"release": func(t *rapid.T) {
 				if len(handles) == 0 {
 					t.Skip("nothing in flight")
@@ -578,7 +653,7 @@ func TestPropCountMaxInflight(t *testing.T) {
 				n := 0
 				for acquire(t) {
 					n++
-					if n > int(g)+int(l)+2 {
+					if n > int(gMax)+int(l)+2 {
 						t.Fatalf("more than G+L requests admitted from empty\ntrace: %s", trace)
 					}
 				}
@@ -587,7 +662,7 @@ func TestPropCountMaxInflight(t *testing.T) {
 					if n != int(l) {
 						t.Fatalf("limiter server not ready: %d requests admitted from empty, the local limit is %d\ntrace: %s", n, l, trace)
 					}
-				} else if n > int(g) {
+				} else if n > int(g) && !errorMode {
 					t.Fatalf("%d requests admitted from empty exceed the global limit %d\ntrace: %s", n, g, trace)
 				}
 				for _, h := range handles {
@@ -611,13 +686,13 @@ func TestPropCountMaxInflight(t *testing.T) {
 				n := 0
 				for acquire(t) {
 					n++
-					if n > int(g)+2 {
+					if n > int(gMax)+2 {
 						break
 					}
 				}
 				trace += fmt.Sprintf("errorProbe=%d;", n)
-				if n < int(l) || n > int(g) {
-					t.Fatalf("after an error answer of the limiter server %d requests are admitted from empty; expected between the local limit %d and the global limit %d\ntrace: %s", n, l, g, trace)
+				if n < int(lLow) || n > int(gMax) {
+					t.Fatalf("after an error answer of the limiter server %d requests are admitted from empty; expected between the local limit %d and the global limit %d\ntrace: %s", n, lLow, gMax, trace)
 				}
 				for _, h := range handles {
 					h.fc.Release()
@@ -627,7 +702,6 @@ func TestPropCountMaxInflight(t *testing.T) {
 				sub.Class("error-probe")
 			},
 		})
-		_ = errorMode
 		if nt {
 			sub.NonTrivial(stats.HashString(trace))
 			if sub.WantSample() {
